@@ -454,12 +454,6 @@ theorem greedy_as_written_eq (q : Nat → Rat) (n : Nat) :
     rw [gMaxC_ceG]; rfl
   · unfold GForm.sample gSample; simp only [hb]
 
-/-- the form the translator found in the source is one of the two forms the theorems cover, with `checkEqualGeneral` at all four
-    sites (a changed tolerance test at any site makes this obligation fail to build: broken tie) -/
-theorem greedy_form_as_extracted :
-    (AITB.Gen.C09.greedyCmpSampleG && AITB.Gen.C09.greedyCmpProbG && AITB.Gen.C09.greedyCmpPol1G && AITB.Gen.C09.greedyCmpPol2G
-      && AITB.Gen.C09.wolfCmpG) = true := by decide
-
 /-- **greedy_repaired_coherent** — the repaired wrapper (maximum first; proposed fix C09-4) is coherent for EVERY row, with no
     hypothesis on the values: the tie list is `T = {i | checkEqualGeneral (q i) max}`, the queries are `1/|T|` on `T` and 0 elsewhere,
     the table equals the queries, they are non-negative and sum to one, and every sampled action is in `T` with positive probability. -/
